@@ -10,6 +10,7 @@ void rt_trap(const char *what) __attribute__((noreturn));
 
 static inline float bits_s(uint32_t b) { float f; memcpy(&f, &b, 4); return f; }
 static inline double bits_d(uint64_t b) { double f; memcpy(&f, &b, 8); return f; }
+static inline uint32_t s_bits(float f) { uint32_t b; memcpy(&b, &f, 4); return b; }
 
 static inline int32_t rt_sdiv32(int32_t a, int32_t b) { if (b == 0) rt_trap("div by zero (w)"); if (a == INT32_MIN && b == -1) rt_trap("div overflow (w)"); return a / b; }
 static inline int64_t rt_sdiv64(int64_t a, int64_t b) { if (b == 0) rt_trap("div by zero (l)"); if (a == INT64_MIN && b == -1) rt_trap("div overflow (l)"); return a / b; }
